@@ -3,6 +3,7 @@
 // {"neg":bool,"a":nat} (value = a, or -1 - a when neg), strings are byte arrays,
 // absent optional members are absent keys.
 #pragma once
+#include <cstring>
 #include "common.h"
 #include "cdns.h"
 
@@ -268,6 +269,20 @@ inline json preamble_out(FilePreamble& fp) {
     return j;
 }
 
+// VERIF_STREAM=fwd: the reader's input is a forward-only stream (no seeking, odd-sized pieces) instead of a string stream
+struct FwdInBuf : std::streambuf {
+    std::string data; std::size_t pos = 0; char buf[4096];
+    explicit FwdInBuf(const std::string& d) : data(d) {}
+    int_type underflow() override {
+        if (pos >= data.size()) return traits_type::eof();
+        std::size_t n = std::min<std::size_t>(4093, data.size() - pos);
+        memcpy(buf, data.data() + pos, n); pos += n;
+        setg(buf, buf, buf + n);
+        return traits_type::to_int_type(buf[0]);
+    }
+};
+inline bool fwd_streams() { static const bool f = getenv("VERIF_STREAM") && std::string(getenv("VERIF_STREAM")) == "fwd"; return f; }
+
 // A FilePreamble object the application keeps and reads one file after the other into (FilePreamble::read is public API)
 inline FilePreamble& reused_preamble() { static thread_local FilePreamble fp; return fp; }      // (one per thread of a driver)
 
@@ -278,7 +293,10 @@ inline json reader_dump(const std::string& bytes, int moved_after = -1) {
     json out = json::object();
     json blocks = json::array();
     try {
-        std::istringstream is(bytes, std::ios::binary);
+        std::istringstream iss(bytes, std::ios::binary);
+        FwdInBuf fb(bytes);
+        std::istream ifwd(&fb);
+        std::istream& is = fwd_streams() ? ifwd : static_cast<std::istream&>(iss);
         std::unique_ptr<CdnsReader> first(new CdnsReader(is)), second;
         CdnsReader* rp = first.get();
         out["preamble"] = preamble_out(rp->m_file_preamble);
